@@ -592,6 +592,8 @@ class LinEval:
     def _index_region(self, idx):
         """'lower' / 'upper' / 'diag' for `(self.X_indices[0], self.X_indices[1])`, X an attribute
         the constructor fills with np.tril_indices(k=-1) / np.triu_indices(k=1) / np.diag_indices."""
+        if isinstance(idx, ast.Name) and idx.id == "__diag__":
+            return "diag"  # M.diagonal().fill_(..) / .copy_(..), written as a store by the front-end
         if not (isinstance(idx, ast.Tuple) and len(idx.elts) == 2):
             return None
         names = []
